@@ -109,6 +109,22 @@ def serveStep (st : ServeState) (op : String) (args : List String) : Option (Ser
         | .panic s => "panic " ++ s ++ " w=- recv=- fl=0"
       some (st, out)
     | _, _ => some (st, "bad-op")
+  | "aexec", legacy :: read :: rest =>
+    match readScript read with
+    | some (.data d) =>
+      let ctx := ctxOf st rest
+      let out := match Req.parse d with
+        | .err => "unparsed w=- recv=- fl=0"
+        | .panic s => "panic " ++ s ++ " w=- recv=- fl=0"
+        | .ok req =>
+          match Controllers.execute ctx req (legacy = "1") with
+          | .ok a =>
+            let raw := Resp.generateResponse a.response req
+            "ok w=" ++ toHexField raw ++ " recv=" ++ toHexField raw ++ " fl=1"
+          | .err => "err w=- recv=- fl=0"
+          | .panic s => "panic " ++ s ++ " w=- recv=- fl=0"
+      some (st, out)
+    | _ => some (st, "bad-op")
   | _, _ => none
 
 end RwsDriver
